@@ -62,6 +62,8 @@ def run(ctx):
                 opts["metadata"] = gen.json_value(rng, maxdepth=3)
             if rng.random() < 0.4:
                 opts["raw_metadata"] = gen.raw_metadata(rng)[:100].hex()
+            if rng.random() < 0.02:
+                opts["raw_metadata"] = rng.randbytes(30000).hex()     # a record of > 64 KiB
             if rng.random() < 0.6:
                 opts["time"] = str(gen.time_value(rng))
             steps.append({"mode": mode, "req": {"op": "writer", "cache": cache, "key": k, "opts": opts,
@@ -156,6 +158,8 @@ def run(ctx):
             sri = ref.write_content(cache, algo, data)
             md = gen.json_value(rng, maxdepth=3) if rng.random() < 0.6 else None
             raw = gen.raw_metadata(rng)[:100] if rng.random() < 0.4 else None
+            if rng.random() < 0.02:
+                raw = rng.randbytes(30000)     # a record of > 64 KiB
             t = gen.time_value(rng)
             sz = len(data)
             ref.append_record(cache, k, ref.entry_json(k, sri, t, sz, md, raw, style=style))
